@@ -3,12 +3,41 @@
 #ifndef TETL_TYPE_TRAITS_MAKE_UNSIGNED_HPP
 #define TETL_TYPE_TRAITS_MAKE_UNSIGNED_HPP
 
+#include <etl/_type_traits/conditional.hpp>
+
 namespace etl {
 
 namespace detail {
 
-template <typename>
-struct make_unsigned;
+/// Character and enumeration types: the unsigned integer type of least rank with the same size.
+template <typename T>
+struct make_unsigned {
+    using type = conditional_t<
+        sizeof(T) == sizeof(unsigned char),
+        unsigned char,
+        conditional_t<
+            sizeof(T) == sizeof(unsigned short),
+            unsigned short,
+            conditional_t<
+                sizeof(T) == sizeof(unsigned int),
+                unsigned int,
+                conditional_t<sizeof(T) == sizeof(unsigned long), unsigned long, unsigned long long>>>>;
+};
+
+template <typename T>
+struct make_unsigned<T const> {
+    using type = typename make_unsigned<T>::type const;
+};
+
+template <typename T>
+struct make_unsigned<T volatile> {
+    using type = typename make_unsigned<T>::type volatile;
+};
+
+template <typename T>
+struct make_unsigned<T const volatile> {
+    using type = typename make_unsigned<T>::type const volatile;
+};
 
 template <>
 struct make_unsigned<signed char> {
